@@ -324,10 +324,10 @@ def RecoverOk (R : Nat) (recover : IS → Byte → Nat → Out (IS × Byte × Bo
     ∃ s' c' e st, recover s c steps = .ok (s', c', e, st) ∧ s'.m ≤ s.m ∧
       st + bigPot R s' ≤ steps + bigPot R s + 2 ∧ (e = false → s'.m + 1 ≤ s.m ∨ s'.m = 0)
 
-theorem dataLoop_endsec (recover : IS → Byte → Nat → Out (IS × Byte × Bool × Nat)) (ci tok : IS → Out LoopRes) (maxErr fuel : Nat)
-    (s : IS) (c : Byte) (nc cnt steps : Nat) :
-    dataLoop recover ci tok maxErr (fuel + 1) s true c nc cnt steps = .ok ⟨s, true, nc, cnt, steps, false⟩ := by
-  show dataStep _ recover ci tok maxErr s true c nc cnt steps = _
+theorem dataLoop_endsec (recover : IS → Byte → Nat → Out (IS × Byte × Bool × Nat)) (inst : Bool → IS → Out LoopRes)
+    (tok : IS → Out LoopRes) (wsMode pass2 : Bool) (maxErr fuel : Nat) (s : IS) (c : Byte) (del : Bool) (nc cnt steps : Nat) :
+    dataLoop recover inst tok wsMode pass2 maxErr (fuel + 1) s true c del nc cnt steps = .ok ⟨s, true, nc, cnt, steps, false⟩ := by
+  show dataStep _ recover inst tok wsMode pass2 maxErr s true c del nc cnt steps = _
   simp [dataStep]
 
 theorem extract_shape (s : IS) (c : Byte) :
@@ -345,81 +345,131 @@ theorem extract_shape (s : IS) (c : Byte) :
     rw [putback_restore hf hp]
     simp [IS.good, hf]
 
-theorem dataLoop_notgood (recover : IS → Byte → Nat → Out (IS × Byte × Bool × Nat)) (ci tok : IS → Out LoopRes) (maxErr fuel : Nat)
-    (s : IS) (e : Bool) (c : Byte) (nc cnt steps : Nat) (h : s.good = false) :
-    dataLoop recover ci tok maxErr (fuel + 1) s e c nc cnt steps = .ok ⟨s, e, nc, cnt, steps, false⟩ := by
-  show dataStep _ recover ci tok maxErr s e c nc cnt steps = _
+theorem dataLoop_notgood (recover : IS → Byte → Nat → Out (IS × Byte × Bool × Nat)) (inst : Bool → IS → Out LoopRes)
+    (tok : IS → Out LoopRes) (wsMode pass2 : Bool) (maxErr fuel : Nat)
+    (s : IS) (e : Bool) (c : Byte) (del : Bool) (nc cnt steps : Nat) (h : s.good = false) :
+    dataLoop recover inst tok wsMode pass2 maxErr (fuel + 1) s e c del nc cnt steps = .ok ⟨s, e, nc, cnt, steps, false⟩ := by
+  show dataStep _ recover inst tok wsMode pass2 maxErr s e c del nc cnt steps = _
   simp [dataStep, h]
 
 theorem not_good_of_m_zero {s : IS} (h : s.m = 0) : s.good = false := by
   obtain ⟨pre, rest, eof, fail, sk⟩ := s
   cases fail <;> simp_all [IS.m, IS.good]
 
-/-- the potential of the instance loop: 96 steps per byte -/
-def dataPot (R : Nat) (s : IS) : Nat := bigPot R s + 64 * s.m
+/-- the potential of the instance loop: `32 + D` steps per byte, `D` chosen by the caller (≥ the per-instance constant + 7) -/
+def dataPot (D R : Nat) (s : IS) : Nat := bigPot R s + D * s.m
 
-theorem dataPot_zero {R : Nat} {s : IS} (h : s.m = 0) : dataPot R s = 0 := by simp [dataPot, bigPot_zero h, h]
+theorem dataPot_zero {D R : Nat} {s : IS} (h : s.m = 0) : dataPot D R s = 0 := by simp [dataPot, bigPot_zero h, h]
 
-/-- the instance loop: terminates with fuel `m + 1`, never un-reads, at most 96 steps per consumed byte (all nesting levels),
-and the cut-off: it never counts more than `maxErr + 1` instances that could not be created, and stops as soon as it has -/
-theorem dataLoop_ok {R B maxErr : Nat} {recover : IS → Byte → Nat → Out (IS × Byte × Bool × Nat)} {ci tok : IS → Out LoopRes}
-    (hrec : RecoverOk R recover B) (hci : StageOk R ci 12 B) (ht : StageOk R tok 1 B) :
-    ∀ (fuel : Nat) (s : IS) (e : Bool) (c : Byte) (nc cnt steps : Nat), s.m + 1 ≤ fuel → s.m ≤ B → nc ≤ maxErr →
-      ∃ r, dataLoop recover ci tok maxErr fuel s e c nc cnt steps = .ok r ∧ r.s.m ≤ s.m ∧
-        r.steps + dataPot R r.s ≤ steps + dataPot R s + 20 ∧
+theorem mul_mono' (D : Nat) {a b : Nat} (h : a ≤ b) : D * a ≤ D * b := Nat.mul_le_mul_left D h
+theorem mul_drop' (D : Nat) {a b : Nat} (h : a + 1 ≤ b) : D * a + D ≤ D * b := by
+  have := Nat.mul_le_mul_left D h
+  rw [Nat.mul_add, Nat.mul_one] at this
+  exact this
+
+/-- the extraction after a token separator: strict progress or failure, and the put-back stream is good or failed -/
+theorem extract_after (R : Nat) (t : IS) (c : Byte) :
+    ((t.extract).1.m + 1 ≤ t.m ∨ (t.extract).1.m = 0) ∧
+    (((t.extract).1.putback ((t.extract).2.getD c)).good = true ∨ ((t.extract).1.putback ((t.extract).2.getD c)).m = 0) ∧
+    ((t.extract).1.putback ((t.extract).2.getD c)).m ≤ t.m := by
+  refine ⟨extract_m t, extract_shape t c, ?_⟩
+  have hx := extract_m t
+  have hp := putback_m (t.extract).1 ((t.extract).2.getD c)
+  rcases hx with hx | hx
+  · omega
+  · have := putback_m_zero (t.extract).1 ((t.extract).2.getD c) hx; omega
+
+/-- the head of an iteration (token separator, `in >> c`, optional state letter): a stage with constant 4 -/
+theorem headStage_ok {R B : Nat} {tok : IS → Out LoopRes} (ht : StageOk R tok 1 B) (wsMode pass2 : Bool)
+    (s : IS) (c : Byte) (del : Bool) (steps : Nat) (hB : s.m ≤ B) :
+    ∃ s1 c1 del1 st0, headStage tok wsMode pass2 s c del steps = .ok (s1, c1, del1, st0) ∧
+      (s1.m + 1 ≤ s.m ∨ s1.m = 0) ∧
+      ((s1.putback c1).good = true ∨ (s1.putback c1).m = 0) ∧ (s1.putback c1).m ≤ s.m ∧
+      st0 + bigPot R s1 ≤ steps + bigPot R s + 4 ∧ st0 + bigPot R (s1.putback c1) ≤ steps + bigPot R s + 4 := by
+  unfold headStage
+  obtain ⟨r0, a0, b0, c0⟩ := ht s hB
+  rw [a0]
+  simp only []
+  obtain ⟨hx0, hsh0, hpb0⟩ := extract_after R r0.s c
+  split
+  · obtain ⟨r1, a1, b1, c1'⟩ := ht (r0.s.extract).1 (by rcases hx0 with h | h <;> omega)
+    rw [a1]
+    simp only []
+    obtain ⟨hx1, hsh1, hpb1⟩ := extract_after R r1.s ((r0.s.extract).2.getD c)
+    have hp0 := pot_mono (R := R) (a := (r0.s.extract).1) (b := r0.s) (by rcases hx0 with h | h <;> omega)
+    have hp1 := pot_mono (R := R) (a := (r1.s.extract).1) (b := r1.s) (by rcases hx1 with h | h <;> omega)
+    have hp1b := pot_mono (R := R) hpb1
+    refine ⟨_, _, _, _, rfl, ?_, hsh1, by omega, ?_, ?_⟩
+    · rcases hx1 with h | h
+      · left; rcases hx0 with h0 | h0 <;> omega
+      · right; exact h
+    · simp only [bigPot]
+      have : (r1.s.extract).1.m ≤ s.m := by rcases hx1 with h | h <;> rcases hx0 with h0 | h0 <;> omega
+      omega
+    · simp only [bigPot]
+      have : ((r1.s.extract).1.putback ((r1.s.extract).2.getD ((r0.s.extract).2.getD c))).m ≤ s.m := by
+        rcases hx0 with h0 | h0 <;> omega
+      omega
+  · have hp0 := pot_mono (R := R) (a := (r0.s.extract).1) (b := r0.s) (by rcases hx0 with h | h <;> omega)
+    have hp0b := pot_mono (R := R) hpb0
+    refine ⟨_, _, _, _, rfl, ?_, hsh0, by omega, ?_, ?_⟩
+    · rcases hx0 with h | h
+      · left; omega
+      · right; exact h
+    · simp only [bigPot]
+      have : (r0.s.extract).1.m ≤ s.m := by rcases hx0 with h | h <;> omega
+      omega
+    · simp only [bigPot]; omega
+
+/-- the per-instance reader of either pass: for both values of "marked deleted" a stage with constant `K` -/
+def InstOk (R : Nat) (inst : Bool → IS → Out LoopRes) (K B : Nat) : Prop := ∀ d, StageOk R (inst d) K B
+
+/-- the instance loop of `ReadData1` / `ReadData2`: terminates with fuel `m + 1`, never un-reads, at most `32 + D` steps per
+consumed byte (all nesting levels), and the cut-off: it never counts more than `maxErr + 1` failed instances, and stops
+as soon as it has -/
+theorem dataLoop_ok {R B K D maxErr : Nat} {recover : IS → Byte → Nat → Out (IS × Byte × Bool × Nat)}
+    {inst : Bool → IS → Out LoopRes} {tok : IS → Out LoopRes} (wsMode pass2 : Bool)
+    (hrec : RecoverOk R recover B) (hinst : InstOk R inst K B) (ht : StageOk R tok 1 B) (hD : K + 7 ≤ D) :
+    ∀ (fuel : Nat) (s : IS) (e : Bool) (c : Byte) (del : Bool) (nc cnt steps : Nat), s.m + 1 ≤ fuel → s.m ≤ B → nc ≤ maxErr →
+      ∃ r, dataLoop recover inst tok wsMode pass2 maxErr fuel s e c del nc cnt steps = .ok r ∧ r.s.m ≤ s.m ∧
+        r.steps + dataPot D R r.s ≤ steps + dataPot D R s + (K + 8) ∧
         nc ≤ r.notCreated ∧ r.notCreated ≤ maxErr + 1 ∧ (r.aborted = true ↔ r.notCreated = maxErr + 1) := by
   intro fuel
   induction fuel with
-  | zero => intro s e c nc cnt steps h; omega
+  | zero => intro s e c del nc cnt steps h; omega
   | succ fuel ih =>
-    intro s e c nc cnt steps h hB hnc
-    show ∃ r, dataStep (dataLoop recover ci tok maxErr fuel) recover ci tok maxErr s e c nc cnt steps = .ok r ∧ _
+    intro s e c del nc cnt steps h hB hnc
+    show ∃ r, dataStep (dataLoop recover inst tok wsMode pass2 maxErr fuel) recover inst tok wsMode pass2 maxErr
+      s e c del nc cnt steps = .ok r ∧ _
     unfold dataStep
     split
     · rename_i hcond
       have hg : s.good = true := by simp at hcond; exact hcond.1
       have hpos := good_m_pos hg
       obtain ⟨f, rfl⟩ : ∃ f, fuel = f + 1 := ⟨fuel - 1, by omega⟩
-      obtain ⟨r0, a0, b0, c0⟩ := ht s hB
-      rw [a0]
+      obtain ⟨s1, c1, del1, st0, hhead, hx, hsh, hpbm, hq1, hq1b⟩ := headStage_ok (R := R) ht wsMode pass2 s c del steps hB
+      rw [hhead]
       simp only []
-      have hx := extract_m r0.s
-      have hsh := extract_shape r0.s c
-      generalize r0.s.extract = ex at hx hsh ⊢
-      obtain ⟨s1, o⟩ := ex
-      simp only [] at hx hsh ⊢
       -- the state after the optional resynchronisation
       have hrc : ∃ s2 c2 e2 st,
-          (if o.getD c ≠ chHash then recover (s1.putback (o.getD c)) (o.getD c) (steps + 1 + r0.steps)
-            else Out.ok (s1, o.getD c, false, steps + 1 + r0.steps)) = .ok (s2, c2, e2, st) ∧
-          s2.m ≤ s.m ∧ st + bigPot R s2 ≤ steps + bigPot R s + 4 ∧
+          (if c1 ≠ chHash then recover (s1.putback c1) c1 st0 else Out.ok (s1, c1, false, st0)) = .ok (s2, c2, e2, st) ∧
+          s2.m ≤ s.m ∧ st + bigPot R s2 ≤ steps + bigPot R s + 6 ∧
           (e2 = false → s2.m + 1 ≤ s.m ∨ s2.m = 0) := by
-        have hpbm : (s1.putback (o.getD c)).m ≤ r0.s.m := by
-          have hpb := putback_m s1 (o.getD c)
-          rcases hx with hx | hx
-          · omega
-          · have := putback_m_zero s1 (o.getD c) hx; omega
         split
         · rename_i hne
-          obtain ⟨s2, c2, e2, st, hh, hm, hp, hpr⟩ := hrec (s1.putback (o.getD c)) (o.getD c) (steps + 1 + r0.steps) (by omega) hsh hne
-          have hpb2 : bigPot R (s1.putback (o.getD c)) + r0.steps ≤ bigPot R s + 1 := by
-            have := pot_mono (R := R) hpbm
-            simp only [bigPot]; omega
+          obtain ⟨s2, c2, e2, st, hh, hm, hp, hpr⟩ := hrec (s1.putback c1) c1 st0 (by omega) hsh hne
           refine ⟨s2, c2, e2, st, hh, by omega, by omega, ?_⟩
           intro he
           rcases hpr he with h1 | h1
           · left; omega
           · right; exact h1
-        · refine ⟨s1, o.getD c, false, steps + 1 + r0.steps, rfl, by rcases hx with hx | hx <;> omega, ?_, ?_⟩
-          · have := pot_mono (R := R) (a := s1) (b := r0.s) (by rcases hx with hx | hx <;> omega)
-            simp only [bigPot]; rcases hx with hx | hx <;> omega
-          · intro _
-            rcases hx with hx | hx
-            · left; omega
-            · right; exact hx
+        · refine ⟨s1, c1, false, st0, rfl, by rcases hx with h1 | h1 <;> omega, by omega, ?_⟩
+          intro _
+          exact hx
       obtain ⟨s2, c2, e2, st, hh, hm2, hp2, hpr2⟩ := hrc
       simp only [hh]
-      have hq2 : st + dataPot R s2 ≤ steps + dataPot R s + 4 := by simp only [dataPot]; omega
+      have hD2 := mul_mono' D hm2
+      have hq2 : st + dataPot D R s2 ≤ steps + dataPot D R s + 6 := by simp only [dataPot]; omega
       cases e2 with
       | true =>
         simp only []
@@ -431,33 +481,37 @@ theorem dataLoop_ok {R B maxErr : Nat} {recover : IS → Byte → Nat → Out (I
         · intro hh'; exfalso; omega
       | false =>
         simp only []
-        obtain ⟨r, a, b, cc⟩ := hci s2 (by omega)
+        obtain ⟨r, a, b, cc⟩ := hinst (wsMode && del1) s2 (by omega)
         rw [a]
         simp only []
-        have hqr : r.steps + dataPot R r.s ≤ dataPot R s2 + 12 := by simp only [dataPot, bigPot]; omega
+        have hDr := mul_mono' D b
+        have hqr : r.steps + dataPot D R r.s ≤ dataPot D R s2 + K := by simp only [dataPot, bigPot]; omega
         have hprog := hpr2 rfl
-        -- everything that happens after `ci` within this iteration is within the budget
-        have hbud : st + r.steps + dataPot R r.s + 1 + 20 ≤ steps + dataPot R s + 20 ∨ r.s.m = 0 := by
+        have hbud : st + r.steps + dataPot D R r.s + 1 + (K + 8) ≤ steps + dataPot D R s + (K + 8) ∨ r.s.m = 0 := by
           rcases hprog with h1 | h1
           · left
-            have : st + dataPot R s2 + 60 ≤ steps + dataPot R s := by
+            have hdd := mul_drop' D h1
+            have : st + dataPot D R s2 + D ≤ steps + dataPot D R s + 6 := by
               simp only [dataPot]; omega
             omega
           · right; omega
-        have hz : r.s.m = 0 → st + r.steps + 1 ≤ steps + dataPot R s + 17 := by
+        have hz : r.s.m = 0 → st + r.steps + 1 ≤ steps + dataPot D R s + (K + 7) := by
           intro hz0
-          have : dataPot R r.s = 0 := dataPot_zero hz0
-          have : 0 ≤ dataPot R s2 := Nat.zero_le _
+          have h00 : dataPot D R r.s = 0 := dataPot_zero hz0
+          have : 0 ≤ dataPot D R s2 := Nat.zero_le _
           rcases hprog with h1 | h1
-          · have : st + dataPot R s2 + 60 ≤ steps + dataPot R s := by
+          · have hdd := mul_drop' D h1
+            have : st + dataPot D R s2 + D ≤ steps + dataPot D R s + 6 := by
               simp only [dataPot]; omega
             omega
-          · have h0 := dataPot_zero (R := R) h1
+          · have h0 := dataPot_zero (D := D) (R := R) h1
             omega
-        generalize hnn : (if r.sev = 1 then (nc, cnt + 1) else (nc + 1, cnt)) = nn
+        generalize hnn : (if r.sev = 1 then (nc, cnt + 1) else if r.sev = 0 then (nc + 1, cnt) else (nc, cnt)) = nn
         obtain ⟨nc', cnt'⟩ := nn
         have hnc' : nc ≤ nc' ∧ nc' ≤ nc + 1 := by
-          split at hnn <;> (simp at hnn; omega)
+          split at hnn
+          · simp at hnn; omega
+          · split at hnn <;> (simp at hnn; omega)
         simp only []
         split
         · rename_i hab
@@ -465,7 +519,7 @@ theorem dataLoop_ok {R B maxErr : Nat} {recover : IS → Byte → Nat → Out (I
           · simp only []
             rcases hbud with h1 | h1
             · omega
-            · have := hz h1; have := dataPot_zero (R := R) h1; omega
+            · have := hz h1; have := dataPot_zero (D := D) (R := R) h1; omega
           · simp only []
             constructor
             · intro _; omega
@@ -476,13 +530,12 @@ theorem dataLoop_ok {R B maxErr : Nat} {recover : IS → Byte → Nat → Out (I
           obtain ⟨s3, e3⟩ := fe
           simp only [] at hfe ⊢
           by_cases hz3 : s3.m = 0
-          · -- the stream has failed: the loop stops at its next test
-            rw [dataLoop_notgood _ _ _ _ _ _ _ _ _ _ _ (not_good_of_m_zero hz3)]
+          · rw [dataLoop_notgood _ _ _ _ _ _ _ _ _ _ _ _ _ _ (not_good_of_m_zero hz3)]
             refine ⟨_, rfl, by simp only []; omega, ?_, by simp only []; omega, by simp only []; omega, ?_⟩
             · simp only []
               rw [dataPot_zero hz3]
               rcases hbud with h1 | h1
-              · have : 0 ≤ dataPot R r.s := Nat.zero_le _
+              · have : 0 ≤ dataPot D R r.s := Nat.zero_le _
                 omega
               · have := hz h1; omega
             · simp only []
@@ -493,10 +546,11 @@ theorem dataLoop_ok {R B maxErr : Nat} {recover : IS → Byte → Nat → Out (I
               rcases hprog with h1 | h1
               · omega
               · omega
-            obtain ⟨rr, ha, hb, hc, hd, he, hf⟩ := ih s3 e3 c2 nc' cnt' (st + r.steps + 1) (by omega) (by omega) (by omega)
+            obtain ⟨rr, ha, hb, hc, hd, he, hf⟩ := ih s3 e3 c2 del1 nc' cnt' (st + r.steps + 1) (by omega) (by omega) (by omega)
             refine ⟨rr, ha, by omega, ?_, by omega, he, hf⟩
-            have hq3 : dataPot R s3 ≤ dataPot R r.s := by
+            have hq3 : dataPot D R s3 ≤ dataPot D R r.s := by
               have := pot_mono (R := R) hfe
+              have := mul_mono' D hfe
               simp only [dataPot, bigPot]; omega
             rcases hbud with h1 | h1
             · omega
@@ -508,18 +562,25 @@ theorem dataLoop_ok {R B maxErr : Nat} {recover : IS → Byte → Nat → Out (I
       · intro h; cases h
       · intro h; exfalso; omega
 
-
-theorem dataPot_le {R : Nat} (s : IS) : dataPot R s ≤ 96 * s.m + R := by
+theorem dataPot_le {D R : Nat} (s : IS) : dataPot D R s ≤ (32 + D) * s.m + R := by
   have := pot_le (R := R) s
-  simp only [dataPot, bigPot]; omega
+  simp only [dataPot, bigPot, Nat.add_mul]; omega
 
-/-- `ReadData1` with the concrete sub-loops: for every oracle and every part reader that never un-reads -/
-theorem readData1_ok (o : Oracle) (sub : IS → IS) (hsub : ∀ s, (sub s).m ≤ s.m) (cm : Bool) (iters maxErr : Nat) (s : IS) :
-    ∃ r, readData1 o sub cm iters maxErr (s.rest.length + 2) s = .ok r ∧ r.s.m ≤ s.m ∧
-      r.steps ≤ 96 * (s.rest.length + 1) + iters + 20 ∧
-      r.notCreated ≤ maxErr + 1 ∧ (r.aborted = true ↔ r.notCreated = maxErr + 1) := by
-  have hm : s.m ≤ s.rest.length + 1 := by unfold IS.m; split <;> omega
-  generalize hF : s.rest.length + 2 = F at *
+theorem instOrSkip_ok {R B K : Nat} {rd skip : IS → Out LoopRes} (hrd : StageOk R rd K B) (hs : StageOk R skip 1 B) (hK : 1 ≤ K) :
+    InstOk R (instOrSkip rd skip) K B := by
+  intro d s h
+  unfold instOrSkip
+  cases d with
+  | true =>
+    obtain ⟨r, a, b, c⟩ := hs s h
+    simp only [a, if_true]
+    exact ⟨_, rfl, b, by simp only []; omega⟩
+  | false => simpa using hrd s h
+
+/-- the concrete sub-loops of both passes as stages, for fuel `F` and streams of at most `F - 1` bytes -/
+theorem stages (cm : Bool) (iters F : Nat) (hF1 : 1 ≤ F) :
+    StageOk iters (readTokenSeparator cm iters F) 1 (F - 1) ∧ StageOk iters (skipInstance cm iters F) 1 (F - 1) ∧
+    RecoverOk iters (recoverLoop (findStartOfInstance F) (readTokenSeparator cm iters F) F) (F - 1) := by
   have ht : StageOk iters (readTokenSeparator cm iters F) 1 (F - 1) := by
     intro t htB
     exact readTokenSeparator_pot iters cm iters (Nat.le_refl _) F t (by omega)
@@ -531,23 +592,63 @@ theorem readData1_ok (o : Oracle) (sub : IS → IS) (hsub : ∀ s, (sub s).m ≤
     intro t htB
     obtain ⟨r, a, b, c⟩ := scanUntil_pot iters chHash true false 0 (Nat.zero_le _) F t 0 0 0 (by omega)
     exact ⟨r, a, b, by omega⟩
-  have hrec : RecoverOk iters (recoverLoop (findStartOfInstance F) (readTokenSeparator cm iters F) F) (F - 1) := by
-    intro t c steps htB hgz hc
-    obtain ⟨s', c', e, st, h1, h2, h3, _, h5⟩ := recoverLoop_progress hfs ht F t c steps (by omega) htB hgz hc
-    exact ⟨s', c', e, st, h1, h2, h3, h5⟩
+  refine ⟨ht, hs, ?_⟩
+  intro t c steps htB hgz hc
+  obtain ⟨s', c', e, st, h1, h2, h3, _, h5⟩ := recoverLoop_progress hfs ht F t c steps (by omega) htB hgz hc
+  exact ⟨s', c', e, st, h1, h2, h3, h5⟩
+
+/-- `ReadData1` with the concrete sub-loops: for every oracle, every part reader that never un-reads, exchange and
+working-session files -/
+theorem readData1_ok (o : Oracle) (sub : IS → IS) (hsub : ∀ s, (sub s).m ≤ s.m) (cm wsMode : Bool) (iters maxErr : Nat) (s : IS) :
+    ∃ r, readData1 o sub cm wsMode iters maxErr (s.rest.length + 2) s = .ok r ∧ r.s.m ≤ s.m ∧
+      r.steps ≤ 51 * (s.rest.length + 1) + iters + 20 ∧
+      r.notCreated ≤ maxErr + 1 ∧ (r.aborted = true ↔ r.notCreated = maxErr + 1) := by
+  have hm : s.m ≤ s.rest.length + 1 := by unfold IS.m; split <;> omega
+  generalize hF : s.rest.length + 2 = F at *
+  obtain ⟨ht, hs, hrec⟩ := stages cm iters F (by omega)
   have hci := createInstanceSkel_ok (R := iters) (B := F - 1) o sub hsub ht hs
+  have hinst := instOrSkip_ok hci hs (by omega)
   unfold readData1
   have hfe := foundEndSecKywd_m s
   generalize foundEndSecKywd s = fe at hfe ⊢
   obtain ⟨s0, e⟩ := fe
   simp only [] at hfe ⊢
-  obtain ⟨r, a, b, c, _, d, f⟩ := dataLoop_ok (maxErr := maxErr) hrec hci ht F s0 e 0 0 0 0 (by omega) (by omega) (Nat.zero_le _)
+  obtain ⟨r, a, b, c, _, d, f⟩ := dataLoop_ok (D := 19) (maxErr := maxErr) wsMode false hrec hinst ht (by omega)
+    F s0 e 0 false 0 0 0 (by omega) (by omega) (Nat.zero_le _)
   refine ⟨r, a, by omega, ?_, d, f⟩
-  have h1 := dataPot_le (R := iters) s0
-  have : 0 ≤ dataPot iters r.s := Nat.zero_le _
-  have : 96 * s0.m ≤ 96 * (s.rest.length + 1) := by omega
+  have h1 := dataPot_le (D := 19) (R := iters) s0
+  have : 0 ≤ dataPot 19 iters r.s := Nat.zero_le _
+  have : 51 * s0.m ≤ 51 * (s.rest.length + 1) := by omega
   omega
 
+/-- `ReadData2`: the same loop around any per-instance reader `ri` that is a stage with constant `K` (never un-reads, its
+steps paid by what it consumes up to `K`) -/
+theorem readData2_ok (ri : IS → Out LoopRes) (K : Nat) (hK : 1 ≤ K) (cm wsMode : Bool) (iters maxErr : Nat) (s : IS)
+    (hri : StageOk iters ri K (s.rest.length + 1)) :
+    ∃ r, readData2 ri cm wsMode iters maxErr (s.rest.length + 2) s = .ok r ∧ r.s.m ≤ s.m ∧
+      r.steps ≤ (39 + K) * (s.rest.length + 1) + iters + K + 8 ∧
+      r.notCreated ≤ maxErr + 1 ∧ (r.aborted = true ↔ r.notCreated = maxErr + 1) := by
+  have hm : s.m ≤ s.rest.length + 1 := by unfold IS.m; split <;> omega
+  generalize hF : s.rest.length + 2 = F at *
+  have hB : s.rest.length + 1 = F - 1 := by omega
+  rw [hB] at hri
+  obtain ⟨ht, hs, hrec⟩ := stages cm iters F (by omega)
+  have hinst := instOrSkip_ok hri hs hK
+  unfold readData2
+  have hfe := foundEndSecKywd_m s
+  generalize foundEndSecKywd s = fe at hfe ⊢
+  obtain ⟨s0, e⟩ := fe
+  simp only [] at hfe ⊢
+  obtain ⟨r, a, b, c, _, d, f⟩ := dataLoop_ok (D := K + 7) (maxErr := maxErr) wsMode true hrec hinst ht (Nat.le_refl _)
+    F s0 e 0 false 0 0 0 (by omega) (by omega) (Nat.zero_le _)
+  refine ⟨r, a, by omega, ?_, d, f⟩
+  have h1 := dataPot_le (D := K + 7) (R := iters) s0
+  have : 0 ≤ dataPot (K + 7) iters r.s := Nat.zero_le _
+  have h2 : (32 + (K + 7)) * s0.m ≤ (39 + K) * (s.rest.length + 1) := by
+    have : 32 + (K + 7) = 39 + K := by omega
+    rw [this]
+    exact Nat.mul_le_mul_left _ (by omega)
+  omega
 
 /-! ### resynchronisation: when `FindStartOfInstance` reports success the next byte on the stream is `#` -/
 
